@@ -154,6 +154,52 @@ def run(
     return r
 
 
+def run_trace(module: str, cfg: str, path: str, n: int, *, env: dict | None = None, max_lines: int = 6000, max_bytes: int = 60_000_000,
+              workers: int | str = "auto", timeout: int = 3000, heap: str = "12g") -> tuple[dict[int, list[str]], TLCResult]:
+    """Judge an ndjson trace file (one line = one trace, verdict lines <<"V", tid, clause>>) in chunks: TLC holds every line of
+    a trace file as values in memory, and beyond a few hundred MB of JSON the collector takes over.  Verdicts are re-numbered
+    to line numbers of the whole file; every line has to be judged (ACCEPT or REJECT) or the run is a machinery failure."""
+    from .common import MachineryError
+
+    chunks: list[tuple[str, int]] = []
+    out, cnt, size, k, cpath = None, 0, 0, 0, ""
+    with open(path) as f:
+        for line in f:
+            if out is None or cnt >= max_lines or size + len(line) > max_bytes:
+                if out is not None:
+                    out.close()
+                    chunks.append((cpath, cnt))
+                k += 1
+                cpath = f"{path}.{k}"
+                out, cnt, size = open(cpath, "w"), 0, 0
+            out.write(line)
+            cnt += 1
+            size += len(line)
+    if out is not None:
+        out.close()
+        chunks.append((cpath, cnt))
+    verdicts: dict[int, list[str]] = {}
+    base, distinct, wall, last = 0, 0, 0.0, None
+    for cpath, cnt in chunks:
+        r = run(module, cfg, env=dict(env or {}, TRACE_FILE=cpath), workers=workers, timeout=timeout, heap=heap)
+        v = r.verdicts()
+        judged = [t for t, cl in v.items() if "ACCEPT" in cl or "REJECT" in cl]
+        if not r.completed or len(judged) != cnt:
+            raise MachineryError(f"{module}: {len(judged)}/{cnt} judged in chunk {os.path.basename(cpath)}, rc={r.rc}\n" + r.diagnosis())
+        for t, cl in v.items():
+            verdicts[base + t] = cl
+        base += cnt
+        distinct += r.distinct
+        wall += r.wall
+        last = r
+        os.remove(cpath)
+    if base != n or last is None:
+        raise MachineryError(f"{module}: {base} lines judged, {n} written")
+    last.distinct = distinct
+    last.wall = wall
+    return verdicts, last
+
+
 def must_pass(r: TLCResult, what: str) -> None:
     """A specification-level run that is supposed to find no error."""
     if not r.completed:
